@@ -73,3 +73,64 @@ Definition tables_wf (sfx_table : list (bytes * sfx_action)) (junk junk_lead : l
   && forallb (fun b => memb b junk_lead) junk
   && forallb (fun b => b <? 128) junk && forallb (fun b => b <? 128) junk_lead
   && match assoc [] sfx_table with None => true | Some _ => false end.
+
+(* ---- additive definitions used by the general theorems (Proofs/ClassifyProofs.v) ---- *)
+(* the class of known finding F6 (checks/c16.py f6_class): two or more leading junk
+   characters the last of which is a dot *)
+Definition f6_pre (pre : bytes) : bool :=
+  match rev pre with b :: _ :: _ => b =? dot | _ => false end.
+
+(* clean component with valid UTF-8 in place of ASCII *)
+Definition clean_comp_u (junk junk_lead : list N) (c : bytes) : bool :=
+  negb (is_empty c) && utf8_valid c && negb (memb dot c)
+  && match c with b :: _ => negb (memb b junk_lead) | [] => false end
+  && match last_byte c with Some b => negb (memb b junk) | None => false end.
+
+(* widest domain proved: leading junk may contain dots, components are any valid UTF-8 *)
+Definition wf_sname_u (junk junk_lead : list N) (pre c0 : bytes) (comps : list bytes) (post : bytes) : bool :=
+  all_in junk_lead pre && all_in junk post
+  && clean_comp_u junk junk_lead c0 && forallb (clean_comp_u junk junk_lead) comps.
+
+(* a rotation component: numeric, or a word the suffix table does not know *)
+Definition rot_comp (sfx_table : list (bytes * sfx_action)) (c : bytes) : bool :=
+  parse_i32_ok (lower_bytes c)
+  || match assoc (lower_bytes c) sfx_table with None => true | Some _ => false end.
+
+(* [spec_scan] with the decision for "no component left" as a parameter.
+   [spec_scan uat a c0 cr = scan_gen (fun a => spec_name a c0) uat a cr] (lemma spec_scan_gen);
+   with [base := fallback_spec uat] and the first component pushed onto the component
+   list it describes what the code does in the class of known finding F6. *)
+Section ScanGen.
+  Variable sfx_table : list (bytes * sfx_action).
+  Variable base : fta -> result.
+  Fixpoint scan_gen (uat : bool) (a : fta) (comps_rev : list bytes) : result :=
+    match comps_rev with
+    | [] => base a
+    | c :: rest =>
+        let w := lower_bytes c in
+        if parse_i32_ok w then scan_gen uat a rest
+        else match assoc w sfx_table with
+             | Some (SCompress a') => scan_gen uat a' rest
+             | Some STar => RArchiveTar a
+             | Some SEvtx => RFile (Evtx a)
+             | Some SJournal => RFile (Journal a)
+             | Some SText => RFile (Text a)
+             | Some (SFixed t) => RFile (Fixed a t)
+             | Some SUnparsable => if uat then RFile (Text a) else RFile Unparsable
+             | None => scan_gen uat a rest
+             end
+    end.
+End ScanGen.
+
+Definition fallback_spec (uat : bool) (a : fta) : result :=
+  if uat then RFile (Text a) else RFile Unparsable.
+
+(* behaviour of the code inside the F6 class: the first component is read as one more
+   suffix, and the junk in front of it as an all-junk name (fallback) *)
+Definition f6_classify (sfx_table : list (bytes * sfx_action)) (uat : bool) (c0 : bytes) (comps : list bytes) : result :=
+  scan_gen sfx_table (fallback_spec uat) uat Normal (rev (c0 :: comps)).
+
+(* a component that does not decide the type: rotation component or compression word *)
+Definition transparent_comp (sfx_table : list (bytes * sfx_action)) (c : bytes) : bool :=
+  rot_comp sfx_table c
+  || match assoc (lower_bytes c) sfx_table with Some (SCompress _) => true | _ => false end.
